@@ -76,8 +76,11 @@ int Wait(pid_t child) {
   UTIL_THROW_IF(-1 == waitpid(child, &status, 0), util::ErrnoException, "waitpid for child failed");
   if (WIFEXITED(status)) {
     return WEXITSTATUS(status);
+  } else if (WIFSIGNALED(status)) {
+    // Shell convention.  Returning 256 from main would be truncated to exit status 0.
+    return 128 + WTERMSIG(status);
   } else {
-    return 256;
+    return 255;
   }
 }
 
